@@ -11,7 +11,7 @@ func init() {
 		Run: func(ch *Chooser, emit func(c any, v *Violation, log []string, info *caseInfo)) {
 			s := genSession14(ch)
 			guard(C14Case{S: s, V: Variant{Clause: "base"}})
-			base := runSession(s, fsFromFiles(s.Files, s.Dirs), false, false)
+			base := runSession(s, fsFromSession(s.Files, s.Dirs, s.Links), false, false)
 			for _, v := range variants14(ch, s, base) {
 				c := C14Case{S: s, V: v}
 				guard(c)
